@@ -53,7 +53,20 @@ def adaptive_cases(tier, rng):
         if rng.random() < 0.3:
             c['beta'] = rng.choice([0.8, 0.95])
         C.append(c)
-    return C
+    # scripted error estimates: every sequence of (estimate / tolerance) ratios over the first attempts, for every limiter setting
+    import itertools
+    R = [0.3, 0.98, 1.02, 1.3, 5.0]
+    settings = [{}, dict(dt_slope_min=0.5, dt_slope_max=2.0), dict(dt_rel_min_slope=0.2), dict(dt_rel_min_slope=0.2, dt_slope_min=0.25, dt_slope_max=4.0),
+                dict(dt_min=0.03, dt_max=0.15), dict(dt_rel_min_slope=0.5, beta=0.8)]
+    scripted = []
+    for script in itertools.product(R, repeat=4):
+        for st in settings:
+            for maxr in (1, 2):
+                for crash in (True, False):
+                    scripted.append(dict(problem='test', e_tol=1e-5, dt=0.1, tend=0.25, maxiter=2, max_restarts=maxr, crash=crash, script=list(script), **st))
+    if tier == 'quick':
+        scripted = rng.sample(scripted, 1500)
+    return C + scripted
 
 
 def _adapt_job(case):
